@@ -215,7 +215,8 @@ def one_case(ctx, statics, entries, cfg, Bs, sample=False):
         kw['boolean_attributes'] = set()
     ndicts = sum(1 for n, v in entries if n is None)
     try:
-        t = PageTemplate(src, **kw)
+        from vlib import routes
+        t = routes.make(PageTemplate, src, 6, ctx, **kw)
     except Exception as e:
         msg = str(e).split('\n')[0]
         key = 'compile-%s' % type(e).__name__
